@@ -87,9 +87,7 @@ pub fn judge(x: i128, k: f64, div: bool, limit: i128, got: &Result<i128, Error>)
             Ok(if *r == 0 { "ok_zero" } else if p.cmp_int(*r) == std::cmp::Ordering::Equal { "ok_exact" } else { "ok_truncated" })
         }
         Err(Error::IntervalOutOfRange) => {
-            // "a finite result outside the interval range": decided on the truncated result, or - the wording does not
-            // say at which point - on the result before truncation (a product strictly between the limit and limit + 1)
-            if band.admits_trunc_beyond(limit) { Ok("interval_range_error") } else if band.admits_beyond(limit) { Ok("interval_range_error_before_truncation") } else { Err("Ok(value): the result is inside the interval range".into()) }
+            if band.admits_trunc_beyond(limit) { Ok("interval_range_error") } else { Err("Ok(value): the truncated result is inside the interval range".into()) }
         }
         Err(e) => Err(format!("a value or Err(IntervalOutOfRange), not Err({e:?})")),
     }
